@@ -48,6 +48,13 @@ finally:
     shutil.rmtree(wt, ignore_errors=True)
     shutil.rmtree(out, ignore_errors=True)
 alarms = {k: v for k, v in res["checks"].items() if v["exit"] != 0}
-res["alarms"] = sorted(alarms)
+# a run over some of the checks updates those entries of an earlier result and keeps the others
+try:
+    earlier = json.load(open(os.path.join(d, "result.json")))["checks"]
+except (OSError, ValueError, KeyError):
+    earlier = {}
+earlier.update(res["checks"])
+res["checks"] = dict(sorted(earlier.items()))
+res["alarms"] = sorted(k for k, v in res["checks"].items() if v["exit"] != 0)
 json.dump(res, open(os.path.join(d, "result.json"), "w"), indent=1)
 print(os.path.basename(d), res["suite_tail"], "| alarms:", alarms if alarms else "none")
